@@ -174,13 +174,17 @@ fn evaluate(case: &Case, scalar: i64) -> Result<(usize, usize, bool), (String, S
         1 => f32::EPSILON as f64,
         _ => 0.0,
     };
+    // views whose value is a quotient of N-term sums (weighted means, centre of gravity, (x - mean)/std): every summand
+    // contributes half an ulp of rounding, so "a few ulps" is 8 + N there
+    let summed = matches!(en.bound, Bound::MinMax | Bound::Cog | Bound::Vsct) && en.name != "Echo";
+    let few = if summed { 8.0 + n as f64 } else { 8.0 };
     let ulps = |bound: &R, width: &R| -> R {
-        // "a few ulps of the bound itself": 8 ulps of |bound| (of the range width for a bound of 0); exact scalar: Q's own rounding only
+        // "a few ulps of the bound itself": 8 (+N) ulps of |bound| (of the range width for a bound of 0); exact scalar: Q's own rounding only
         if scalar == 2 {
             tol_q_irr(&(bound.abs() + width))
         } else {
             let b = if bound.is_zero() { width.clone() } else { bound.abs() };
-            f(8.0 * eps) * b
+            f(few * eps) * b
         }
     };
     let mut checked = 0;
@@ -299,7 +303,7 @@ pub fn clauses() -> Vec<Clause> {
             Bound::Cog => "|out| <= (N-1)/2 (positive input)".into(),
         };
         for (scalar, sc, q, t) in [(0i64, "f64", 1500u32, 40_000u32), (1, "f32", 800, 20_000), (2, "Q", 400, 8_000)] {
-            let rule = format!("{}: {b}. N in 2..24 (thorough ..100); grammar stream of 0..14N+20 values (5N+10 in f32/Q) on a decimal or dyadic grid followed by one of: flat stretch of N(1+r)+2 values, step to a level up to 1e9 times smaller then flat, perfectly linear run with a slope tiny against the level, small wiggles around a far level, strictly monotone run. Tolerance: 8 ulps of the bound (of the range width for a bound of 0). Non-trivial: >= 3 values checked and (some value within 1% of a bound, or a flat window occurred).", en.name);
+            let rule = format!("{}: {b}. N in 2..24 (thorough ..100); grammar stream of 0..14N+20 values (5N+10 in f32/Q) on a decimal or dyadic grid followed by one of: flat stretch of N(1+r)+2 values, step to a level up to 1e9 times smaller then flat, perfectly linear run with a slope tiny against the level, small wiggles around a far level, strictly monotone run. Tolerance: 8 ulps of the bound (8 + N for the quotients of N-term sums: Sma, Alma, CoG, Vsct; of the range width for a bound of 0). Non-trivial: >= 3 values checked and (some value within 1% of a bound, or a flat window occurred).", en.name);
             v.push(Clause::generated("C07", format!("C07/range/{}/{sc}", en.name), rule, q, t, strategy(ei, scalar), check).with_shard(if scalar == 2 { 50 } else { 250 }));
         }
     }
